@@ -81,8 +81,10 @@ pub struct Ctx {
 }
 
 impl Ctx {
+    /// Exhaustive bounds follow the tier, except in the (20x slower)
+    /// unoptimised build, which keeps the quick bounds.
     pub fn quick(&self) -> bool {
-        self.tier == Tier::Quick
+        self.tier == Tier::Quick || self.profile == "dev"
     }
     pub fn pick<T>(&self, quick: T, thorough: T) -> T {
         if self.quick() {
@@ -322,7 +324,7 @@ fn write_replay(
         "profile": ctx.profile,
         "features": ctx.features,
         "seed": ctx.seed,
-        "tier": if ctx.quick() { "quick" } else { "thorough" },
+        "tier": if ctx.tier == Tier::Quick { "quick" } else { "thorough" },
         "case": case,
     });
     let text = serde_json::to_string_pretty(&body).unwrap();
